@@ -353,6 +353,78 @@ pub fn run_history(id: String, case: &AdfCase, backend: Backend, calls: Vec<HCal
     }
 }
 
+/// Deep frameworks (40-100 statements): constant conditions plus one long chain (and / or / xor over all other statements), or an
+/// implication ladder that needs n propagation rounds - diagrams as deep as the framework is long, across the 63/64/65 boundary.
+/// One object answers a few calls; with `persist` it is copied through a round trip first and the copy answers the same calls.
+/// Judged by TLC: the copy is the original (C14); where the framework decomposes (AdfCompose) the answers are the definition's (C11).
+pub fn deep_history(rng: &mut StdRng, id: String, out: &mut Vec<Value>, persist: bool) {
+    let n = [40usize, 63, 64, 65, 66, 70, 100][rng.gen_range(0..7)];
+    let family = rng.gen_range(0..4);
+    let goal = [0, n / 2, n - 1][rng.gen_range(0..3)];
+    let mut asts: Vec<Ast> = Vec::new();
+    for i in 0..n {
+        asts.push(match family {
+            0 => Ast::Top,
+            1 => if rng.gen_range(0..n) == 0 { Ast::Top } else { Ast::Bot },
+            2 => if rng.gen_bool(0.5) { Ast::Top } else { Ast::Bot },
+            _ => if i == 0 { Ast::Top } else if rng.gen_bool(0.8) { Ast::Atom(i - 1) } else { not(Ast::Atom(i - 1)) },
+        });
+    }
+    if family < 3 {
+        let others: Vec<usize> = (0..n).filter(|i| *i != goal).collect();
+        let mut f = Ast::Atom(others[others.len() - 1]);
+        for i in others.iter().rev().skip(1) {
+            f = match family { 0 => and(Ast::Atom(*i), f), 1 => or(Ast::Atom(*i), f), _ => xor(Ast::Atom(*i), f) };
+        }
+        asts[goal] = f;
+    }
+    let case = AdfCase { id: id.clone(), labels: (0..n).map(|i| format!("x{}", i)).collect(), asts };
+    let text = case.text();
+    let backend = [Backend::Native, Backend::HybridNoPre, Backend::Native, Backend::Hybrid][rng.gen_range(0..4)];
+    let how: &'static str = if rng.gen_bool(0.5) { "serde" } else { "rebuild" };
+    let persist_at = if persist { rng.gen_range(0..2usize) } else { usize::MAX };
+    let calls: Vec<HCall> = ["grounded", "complete", "stable", "ng", "twoval"].iter()
+        .map(|c| HCall { c, h: if *c == "ng" || *c == "twoval" { "Simple" } else { "-" }, seed: 0, ops: vec![] }).collect();
+    breadcrumb(&json!({"kind": "history-deep", "id": id, "text": text, "src": backend.name(), "persist_at": persist_at as i64, "how": how}));
+    let (t2, c2) = (text.clone(), calls.clone());
+    let r = guarded(120, move || {
+        let parser = AdfParser::default();
+        parser.parse()(&t2).unwrap();
+        let mut adf = build_adf(&parser, backend);
+        let mut copy: Option<Adf> = None;
+        let mut persisted = json!({"how": "none"});
+        let mut rows: Vec<Value> = Vec::new();
+        for (i, c) in c2.iter().enumerate() {
+            if i == persist_at {
+                let orig_nodes = nodes_json(&adf.bdd);
+                let orig_ac: Vec<usize> = adf.ac.iter().map(|t| t.value()).collect();
+                match std::panic::catch_unwind(std::panic::AssertUnwindSafe(|| if how == "serde" { serde_like_cli(&adf) } else { rebuild_like_server(&adf) })) {
+                    Ok(cp) => {
+                        persisted = json!({"how": how, "at": i, "st": "ok", "orig_nodes": orig_nodes, "copy_nodes": nodes_json(&cp.bdd), "orig_ac": orig_ac,
+                                           "copy_ac": cp.ac.iter().map(|t| t.value()).collect::<Vec<_>>()});
+                        copy = Some(cp);
+                    }
+                    Err(_) => persisted = json!({"how": how, "at": i, "st": "panic", "orig_nodes": orig_nodes, "copy_nodes": [], "orig_ac": orig_ac, "copy_ac": []}),
+                }
+            }
+            let a = std::panic::catch_unwind(std::panic::AssertUnwindSafe(|| do_call(&mut adf, &t2, c)));
+            let (av, ast) = match a { Ok(v) => (json!(v), "ok"), Err(_) => (json!([]), "panic") };
+            let (cv, cst) = match copy.as_mut() {
+                Some(cp) => match std::panic::catch_unwind(std::panic::AssertUnwindSafe(|| do_call(cp, &t2, c))) { Ok(v) => (json!(v), "ok"), Err(_) => (json!([]), "panic") },
+                None => (json!([]), "na"),
+            };
+            rows.push(json!({"c": c.c, "h": c.h, "a": av, "a_st": ast, "cp": cv, "cp_st": cst}));
+        }
+        (rows, persisted, nodes_json(&adf.bdd), copy.as_ref().map(|c| nodes_json(&c.bdd)).unwrap_or(json!([])))
+    });
+    match r {
+        Outcome::Ok((rows, persisted, orig_final, copy_final)) => out.push(json!({"kind": "histdeep", "id": id, "n": n, "text": text, "backend": backend.name(),
+            "family": family, "asts": case.asts.iter().map(|a| a.to_json_idx()).collect::<Vec<_>>(), "persist": persisted, "calls": rows,
+            "orig_final": orig_final, "copy_final": copy_final})),
+        o => out.push(json!({"kind": "panic", "id": id, "text": text, "prop": if persist { "C14" } else { "C11" }, "what": format!("deep history: {}", o.status())})),
+    }
+}
+
 pub fn main(args: &[String]) {
     let mut tier = "quick".to_string();
     let mut out = String::new();
@@ -382,6 +454,9 @@ pub fn main(args: &[String]) {
             break;
         }
         one_history(&mut rng, format!("h{}", k), &mut recs, persist);
+    }
+    for k in 0..(if tier == "thorough" { 120 } else if tier == "feat" { 4 } else { 24 }) {
+        deep_history(&mut rng, format!("D{}", k), &mut recs, persist);
     }
     if !persist && tier != "feat" {
         determinism_prefilter(&mut rng, if tier == "thorough" { 120_000 } else { 20_000 }, &mut recs);
